@@ -227,3 +227,73 @@ package txnprovider
 //@   requires provOK(h) && sizesOK(h) && t != nil
 //@   results ops, err
 //@   ensures err == nil ==> len(ops) == anchorCount(t.AnchorString) && (forall q int :: 0 <= q && q < len(ops) ==> ops[q] != nil)
+
+// ---- C13: writer side — every queued operation is accounted for exactly once; one operation per suffix ----
+//
+//@ iface compressionProvider.Compress
+//@ iface metricsProvider.CASWriteSize
+//@ iface OperationParser.ParseOperation
+//@   results op, err
+//@   ensures err == nil ==> op != nil && allocated(op) && (op.Type == operation.TypeCreate || op.Type == operation.TypeUpdate || op.Type == operation.TypeRecover || op.Type == operation.TypeDeactivate)
+//@   ensures err == nil && op.Type == operation.TypeCreate ==> op.SuffixData != nil
+//
+//@ spec handlerOK(h *OperationHandler) bool { h != nil && h.cas != nil && h.parser != nil && h.cp != nil && h.metrics != nil }
+//@ spec qNonNil(ops []*operation.QueuedOperation) bool { forall q int :: 0 <= q && q < len(ops) ==> ops[q] != nil }
+//@ spec allIn(xs []*model.Operation, m map[string]*operation.Reference) bool { forall a int :: 0 <= a && a < len(xs) ==> xs[a] != nil && xs[a].UniqueSuffix in m }
+//@ spec distinctIn(xs []*model.Operation) bool { forall a int, b int :: 0 <= a && a < b && b < len(xs) ==> xs[a].UniqueSuffix != xs[b].UniqueSuffix }
+//@ spec disjointS(xs []*model.Operation, ys []*model.Operation) bool { forall a int, b int :: 0 <= a && a < len(xs) && 0 <= b && b < len(ys) ==> xs[a].UniqueSuffix != ys[b].UniqueSuffix }
+//@ spec allType(xs []*model.Operation, t operation.Type) bool { forall a int :: 0 <= a && a < len(xs) ==> xs[a].Type == t }
+//@ spec sortedOK(r *models.SortedOperations) bool {
+//@     distinctIn(r.Create) && distinctIn(r.Update) && distinctIn(r.Recover) && distinctIn(r.Deactivate) &&
+//@     disjointS(r.Create, r.Update) && disjointS(r.Create, r.Recover) && disjointS(r.Create, r.Deactivate) &&
+//@     disjointS(r.Update, r.Recover) && disjointS(r.Update, r.Deactivate) && disjointS(r.Recover, r.Deactivate) &&
+//@     allType(r.Create, operation.TypeCreate) && allType(r.Update, operation.TypeUpdate) && allType(r.Recover, operation.TypeRecover) && allType(r.Deactivate, operation.TypeDeactivate) }
+//@ spec arraysApart(r *models.SortedOperations) bool {
+//@     localArr(r.Create) && localArr(r.Update) && localArr(r.Recover) && localArr(r.Deactivate) &&
+//@     allocated(r.Create) && allocated(r.Update) && allocated(r.Recover) && allocated(r.Deactivate) &&
+//@     (arrOf(r.Create) == 0 || (arrOf(r.Create) != arrOf(r.Update) && arrOf(r.Create) != arrOf(r.Recover) && arrOf(r.Create) != arrOf(r.Deactivate))) &&
+//@     (arrOf(r.Update) == 0 || (arrOf(r.Update) != arrOf(r.Recover) && arrOf(r.Update) != arrOf(r.Deactivate))) &&
+//@     (arrOf(r.Recover) == 0 || arrOf(r.Recover) != arrOf(r.Deactivate)) }
+//
+//@ func (*OperationHandler).parseOperations
+//@   requires handlerOK(h) && qNonNil(ops)
+//@   loop 1
+//@     invariant qNonNil(ops) && result != nil && fresh(result) && batchSuffixes != nil && fresh(batchSuffixes)
+//@     invariant len(result.Create) + len(result.Update) + len(result.Recover) + len(result.Deactivate) + len(additionalOperations) + len(expiredOperations) == _k
+//@     invariant allIn(result.Create, batchSuffixes) && allIn(result.Update, batchSuffixes) && allIn(result.Recover, batchSuffixes) && allIn(result.Deactivate, batchSuffixes)
+//@     invariant sortedOK(result) && arraysApart(result)
+//@   loop 2
+//@     invariant true
+//@   results r, info, err
+//@   ensures err == nil ==> r != nil && info != nil
+//@   ensures err == nil ==> len(r.Create) + len(r.Update) + len(r.Recover) + len(r.Deactivate) + len(info.AdditionalOperations) + len(info.ExpiredOperations) == len(ops)
+//@   ensures err == nil ==> sortedOK(r)
+//@   ensures err == nil ==> (forall a int :: 0 <= a && a < len(r.Create) ==> r.Create[a] != nil) && (forall a int :: 0 <= a && a < len(r.Update) ==> r.Update[a] != nil) && (forall a int :: 0 <= a && a < len(r.Recover) ==> r.Recover[a] != nil) && (forall a int :: 0 <= a && a < len(r.Deactivate) ==> r.Deactivate[a] != nil)
+//
+//@ func (*AnchorData).GetAnchorString
+//@   trusted
+//@   requires ad != nil
+//@   ensures anchorCount(result) == ad.NumberOfOperations
+//
+//@ func (*OperationHandler).writeModelToCAS
+//@   requires handlerOK(h)
+//@ func (*OperationHandler).createChunkFile
+//@   requires handlerOK(h) && ops != nil && mNonNil(ops.Create) && mNonNil(ops.Recover) && mNonNil(ops.Update)
+//@ func (*OperationHandler).createCoreProofFile
+//@   requires handlerOK(h) && mNonNil(recoverOps) && mNonNil(deactivateOps)
+//@   results uri, err
+//@   ensures err == nil && len(recoverOps) + len(deactivateOps) == 0 ==> uri == ""
+//@ func (*OperationHandler).createProvisionalProofFile
+//@   requires handlerOK(h) && mNonNil(updateOps)
+//@   results uri, err
+//@   ensures err == nil && len(updateOps) == 0 ==> uri == ""
+//@ func (*OperationHandler).createProvisionalIndexFile
+//@   requires handlerOK(h) && mNonNil(ops)
+//@ func (*OperationHandler).createCoreIndexFile
+//@   requires handlerOK(h) && ops != nil && mNonNil(ops.Create) && mNonNil(ops.Recover) && mNonNil(ops.Deactivate)
+//
+// the count in the anchor string plus the deferred and the expired operations account for the whole queue
+//@ func (*OperationHandler).PrepareTxnFiles
+//@   requires handlerOK(h) && qNonNil(ops)
+//@   results info, err
+//@   ensures err == nil ==> info != nil && anchorCount(info.AnchorString) + len(info.AdditionalOperations) + len(info.ExpiredOperations) == len(ops)
